@@ -19,7 +19,10 @@ def cfg_text(sigs, actors, members):
     out = ["role r", "  spotlight true"]
     for s in sigs:
         pat = TSRE[s["ts"]] % (s["tag"], s["typ"])
-        if s.get("pos") == 1:
+        if s.get("pos") == 3:
+            # unanchored: matches a part of the line
+            pat = "(?P<ts_now>)%s=(?P<%s>%s)" % (s["tag"], s["typ"], "[a-z]+" if s["typ"] == "event" else "[0-9]+")
+        elif s.get("pos") == 1:
             pat = pat[:-1] + r"(?: \| .*)?$"
         elif s.get("pos") == 2:
             pat = r"^.* \| " + pat[1:]
@@ -100,7 +103,28 @@ def gen_pair_case(rng):
     return sigs, actors, members, lines
 
 
+def gen_free_case(rng):
+    """signals whose patterns match only a part of the line"""
+    sigs = [{"name": "s0", "tag": "load", "typ": rng.pick(["scalar", "delta"]), "ts": "now", "pos": 3},
+            {"name": "s1", "tag": "st", "typ": "event", "ts": "now", "pos": 3}]
+    if rng.chance(1, 2):
+        sigs.append({"name": "s2", "tag": "aload", "typ": "scalar", "ts": "now", "pos": 3})      # its tag ends like another one
+    actors = ["a", "b"][:rng.range(1, 2)]
+    members = [{"name": "o%d" % j, "cond": None, "assigns": [], "expect": None,
+                "watches": [(a, s["name"]) for a in actors if rng.chance(3, 4)] or [(actors[0], s["name"])]} for j, s in enumerate(sigs)]
+    lines = []
+    for _ in range(rng.range(1, 15)):
+        a = rng.pick(actors)
+        n = str(rng.range(0, 99))
+        w = rng.pick(["up", "down", "boot"])
+        lines.append((a, rng.pick(["INFO load=%s ms" % n, "load=%s" % n, "x load= load=%s y" % n, "load=x%s" % n, "aload=%s load=%s" % (n, rng.range(0, 9)),
+                                   "st=%s now" % w, "INFO st=%s load=%s" % (w, n), "st=UP", "nothing here", "loadst=%s=%s" % (w, n)]), "free"))
+    return sigs, actors, members, lines
+
+
 def gen_case(rng):
+    if rng.chance(1, 6):
+        return gen_free_case(rng)
     if rng.chance(1, 5):
         return gen_pair_case(rng)
     nsig = rng.range(1, 4)
@@ -309,10 +333,12 @@ def run(tier, seed):
             kdis.append({"config": text, "lines": lines, "impl_obs": [str(x) for x in a_][:12], "model_obs": [str(x) for x in b_][:12]})
         rep.sample({"config": text, "lines": lines[:6], "csv": {k: [str(x) for x in v[:4]] for k, v in csv.items()}}, cap=2)
     # ---- E-C08: the spotlight manager on the real binary: each actor's lines are attributed to that actor ----
+    # (the pattern is anchored at both ends: the spotlight script runs under `set -x` and its trace lines, e.g.
+    # `+ echo v=1`, are scanned like any other line of its output)
     from . import e2e
     nact = 3
     etext = ("role meter\n  :wait sleep 0.4\n  spotlight echo \"v=$((i+1))\"; echo \"v=$((i+11))\" >&2; sleep 30\n"
-             "  signal v scalar at (?P<ts_now>)v=(?P<scalar>\\d+)$\nend\ncast\n  m* play %d meter\nend\nscript\n  tempo 100ms\n"
+             "  signal v scalar at ^(?P<ts_now>)v=(?P<scalar>\\d+)$\nend\ncast\n  m* play %d meter\nend\nscript\n  tempo 100ms\n"
              "  scene w entails for m1: wait\n  storyline w\nend\naudience\n  obs watches every meter v\nend\n" % nact)
     eplays = [e2e.Play(etext, timeout=30) for _ in range(2 if tier == "quick" else 6)]
     for er in e2e.run_many(eplays, workers=4):
